@@ -576,6 +576,9 @@ func (h *hist) opRC(a *entity, inplace bool) {
 func (h *hist) opSub(a *entity, circ bool) {
 	r := h.c.Rng
 	n := len(a.sh.nuc)
+	if n == 0 {
+		return // no window of an empty sequence belongs to the domain
+	}
 	var from, to int
 	if !circ {
 		from = r.Intn(n)
@@ -756,6 +759,115 @@ func (h *hist) opAttr(a *entity) {
 	}
 }
 
+func (h *hist) pickEmpty() *entity {
+	var l []*entity
+	for _, e := range h.live {
+		if len(e.sh.nuc) == 0 {
+			l = append(l, e)
+		}
+	}
+	if len(l) == 0 {
+		return nil
+	}
+	return l[h.c.Rng.Intn(len(l))]
+}
+
+// opNewEmpty creates an empty sequence whose buffer is (or is not) preallocated.
+func (h *hist) opNewEmpty() {
+	r := h.c.Rng
+	pre := []int{0, 1 + r.Intn(64), 300, 301, 1024, 1500}[r.Intn(6)]
+	h.newEmptyWith(pre)
+	if e := h.ents[len(h.ents)-1]; r.Intn(3) == 0 {
+		n := 1 + r.Intn(400)
+		h.note("Grow #%d by %d", e.id, n)
+		e.obj.Grow(n)
+		h.track("Grow")
+	}
+}
+
+func (h *hist) newEmptyWith(pre int) *entity {
+	h.note("NewEmptyBioSequence(%d) -> #%d", pre, len(h.ents))
+	o := obiseq.NewEmptyBioSequence(pre)
+	e := h.add(o, &shadow{ann: map[string]any{}}, "NewEmpty", nil)
+	h.track("NewEmpty")
+	return e
+}
+
+// opClear empties the sequence, and the qualities with it (the object stays well formed);
+// both keep their backing arrays.
+func (h *hist) opClear(a *entity) {
+	h.note("Clear #%d (len %d, qual %v)", a.id, len(a.sh.nuc), a.sh.hasQual())
+	a.obj.Clear()
+	a.sh.nuc = nil
+	h.touch(a, "Clear")
+	h.track("Clear")
+	if a.sh.hasQual() || h.c.Rng.Intn(2) == 0 {
+		a.obj.ClearQualities()
+		h.track("ClearQualities")
+	}
+	a.sh.qual = nil
+}
+
+func (h *hist) opClearQualities(a *entity) {
+	h.note("ClearQualities #%d (had: %v)", a.id, a.sh.hasQual())
+	a.obj.ClearQualities()
+	a.sh.qual = nil
+	h.touch(a, "ClearQualities")
+	h.track("ClearQualities")
+}
+
+// opAppend appends nucleotides (and as many qualities when the object has
+// qualities, or is empty and gets some) with the append-style mutators.
+func (h *hist) opAppend(a *entity) {
+	r := h.c.Rng
+	k := 1 + r.Intn(30)
+	if len(a.sh.nuc)+k > 2500 {
+		return
+	}
+	var q []byte
+	if a.sh.hasQual() || (len(a.sh.nuc) == 0 && r.Intn(2) == 0) {
+		q = gen.Quals(r, k)
+	}
+	h.appendWith(a, gen.DNAFull(r, k, r.Intn(4)), q, r.Intn(3), r.Intn(2))
+}
+
+func (h *hist) appendWith(a *entity, data, q []byte, how, qhow int) {
+	h.note("Append #%d (len %d) + %d nucleotides, %d qualities (form %d/%d)", a.id, len(a.sh.nuc), len(data), len(q), how, qhow)
+	switch how {
+	case 0:
+		a.obj.Write(cloneBytes(data))
+	case 1:
+		a.obj.WriteString(string(data))
+	default:
+		for _, b := range data {
+			a.obj.WriteByte(b)
+		}
+	}
+	a.sh.nuc = append(a.sh.nuc, ref.LowerBytes(data)...)
+	h.touch(a, "Append")
+	h.track("Write")
+	if len(q) > 0 {
+		if qhow == 0 {
+			a.obj.WriteQualities(cloneBytes(q))
+		} else {
+			for _, b := range q {
+				a.obj.WriteByteQualities(b)
+			}
+		}
+		a.sh.qual = append(a.sh.qual, q...)
+		h.track("WriteQualities")
+	}
+}
+
+// opGrow reserves room; nothing observable changes.
+func (h *hist) opGrow(a *entity) {
+	n := 1 + h.c.Rng.Intn(400)
+	h.note("Grow #%d by %d", a.id, n)
+	a.obj.Grow(n)
+	h.touch(a, "Grow")
+	h.track("Grow")
+}
+
 func (h *hist) opRecycle(a *entity) {
 	h.note("Recycle #%d (%s)", a.id, a.origin)
 	sq, ql, ft := a.obj.VerifBuffers()
@@ -819,7 +931,13 @@ func (h *hist) opScribble() {
 	}
 }
 
-var histOps = []string{"New", "Copy", "RC", "RC-inplace", "Sub", "SubCirc", "Join", "Join-inplace", "SetSequence", "SetQualities", "SetFeatures", "Attr", "Recycle", "Scribble", "Drop"}
+var histOps = []string{"New", "Copy", "RC", "RC-inplace", "Sub", "SubCirc", "Join", "Join-inplace", "SetSequence", "SetQualities", "SetFeatures", "Attr", "Recycle", "Scribble", "Drop",
+	"NewEmpty", "Clear", "ClearQualities", "Append", "Grow"}
+
+// operations for which an empty (cleared / preallocated) object is preferred now and then:
+// what they do to a zero-length slice that has a capacity is the point
+var emptyOps = map[string]bool{"Copy": true, "RC": true, "Join": true, "Join-inplace": true, "Append": true, "SetSequence": true,
+	"SetQualities": true, "Recycle": true, "Grow": true, "RC-inplace": true}
 
 // chooseOp draws the next operation; the mix keeps the population inside [lo, hi].
 func (h *hist) chooseOp(lo, hi int, weights []int) string {
@@ -850,7 +968,12 @@ func (h *hist) chooseOp(lo, hi int, weights []int) string {
 func (h *hist) doStep(op string) {
 	h.opName = op
 	a := h.pick()
-	if a == nil && op != "New" && op != "Scribble" {
+	if emptyOps[op] && h.c.Rng.Intn(3) == 0 {
+		if e := h.pickEmpty(); e != nil {
+			a = e
+		}
+	}
+	if a == nil && op != "New" && op != "Scribble" && op != "NewEmpty" {
 		op = "New"
 		h.opName = op
 	}
@@ -859,7 +982,7 @@ func (h *hist) doStep(op string) {
 		if a.parent >= 0 {
 			partner = [...]string{"source-live", "source-recycled", "source-quarantined", "source-dropped"}[h.ents[a.parent].state]
 		}
-		h.c.Key("op/%s/on:%s/%s/children:%v/qual:%v", op, a.origin, partner, a.children > 0, a.sh.hasQual())
+		h.c.Key("op/%s/on:%s/%s/children:%v/qual:%v/empty:%v", op, a.origin, partner, a.children > 0, a.sh.hasQual(), len(a.sh.nuc) == 0)
 		h.c.Key("seq/%s>%s", a.lastOp, op)
 	}
 	defer func() {
@@ -901,6 +1024,16 @@ func (h *hist) doStep(op string) {
 	case "Drop":
 		h.note("Drop #%d", a.id)
 		h.unlive(a, stDropped)
+	case "NewEmpty":
+		h.opNewEmpty()
+	case "Clear":
+		h.opClear(a)
+	case "ClearQualities":
+		h.opClearQualities(a)
+	case "Append":
+		h.opAppend(a)
+	case "Grow":
+		h.opGrow(a)
 	}
 	if a != nil && a.state == stLive && op != "Drop" {
 		a.lastOp = op
